@@ -44,8 +44,9 @@ func (g *pcGen) header(fn *pcFn) {
 		}
 	}()
 	info := fn.pkg.info
-	c := &pcCtx{g: g, fn: fn, info: info, names: map[types.Object]string{}, taken: map[string]bool{"fuel": true, "rest": true}, ntmp: new(int),
-		nloop: new(int), aux: new([]string), owned: map[types.Object]bool{}, ctxObj: map[types.Object]bool{}, recRef: map[*pcFn]string{}}
+	c := &pcCtx{g: g, fn: fn, info: info, names: map[types.Object]string{}, taken: map[string]bool{"fuel": true, "rest": true, "lfuel": true}, ntmp: new(int),
+		nloop: new(int), aux: new([]string), owned: map[types.Object]bool{}, ctxObj: map[types.Object]bool{}, recRef: map[*pcFn]string{},
+		boxed: map[types.Object]bool{}}
 	var sig *types.Signature
 	var body *ast.BlockStmt
 	var pnames, ptypes []string
@@ -84,7 +85,7 @@ func (g *pcGen) header(fn *pcFn) {
 			if pcIsCtx(r.Type()) {
 				c.ctxObj[r] = true
 			} else {
-				if _, isPtr := r.Type().Underlying().(*types.Pointer); isPtr {
+				if _, isPtr := r.Type().Underlying().(*types.Pointer); isPtr && !c.isHeapPtr(r.Type()) {
 					if n, _ := pgStructOf(r.Type()); n != nil {
 						c.owned[r] = true
 					}
@@ -150,6 +151,9 @@ func (g *pcGen) translate(fn *pcFn) {
 		}
 		return true
 	})
+	if g.tree != nil {
+		g.tree.markBoxed(c, body)
+	}
 	c.retTuple = func(vals []string) string {
 		if len(vals) != sig.Results().Len() {
 			pgFail("the end of the body is reachable but the function has results")
@@ -171,7 +175,7 @@ func (g *pcGen) translate(fn *pcFn) {
 	var lines []string
 	doc := fn.pkg.tpkg.Name() + "." + fn.key
 	if fn.lit != nil {
-		doc = fn.pkg.tpkg.Name() + "." + strings.TrimSuffix(fn.key, "_parse") + ": the function literal it returns (captured variables first)"
+		doc = fn.pkg.tpkg.Name() + "." + strings.TrimSuffix(strings.TrimSuffix(fn.key, "_parse"), "_func") + ": the function literal it returns (captured variables first)"
 	}
 	if fn.inout {
 		doc += " (the receiver is written: returned as the first component)"
@@ -183,7 +187,7 @@ func (g *pcGen) translate(fn *pcFn) {
 		for i := range wild {
 			wild[i] = "_"
 		}
-		def = fmt.Sprintf("/-- %s -/\ndef %s (W : World Context) : %s\n  | %s => Go.outOfFuel\n  | %s => do\n%s\n", doc, fn.defName(),
+		def = fmt.Sprintf("/-- %s -/\ndef %s "+g.worldB()+" : %s\n  | %s => Go.outOfFuel\n  | %s => do\n%s\n", doc, fn.defName(),
 			strings.Join(append(append([]string{"Nat"}, ptypes...), "M "+resT), " → "),
 			strings.Join(append([]string{"0"}, wild...), ", "), strings.Join(append([]string{"fuel + 1"}, pnames...), ", "), strings.Join(lines, "\n"))
 		if h := pcFuelHint[fn.key]; h != "" {
@@ -191,7 +195,7 @@ func (g *pcGen) translate(fn *pcFn) {
 			for i := range pnames {
 				ps = append(ps, "("+pnames[i]+" : "+ptypes[i]+")")
 			}
-			fn.wrapper = fmt.Sprintf("/-- %s with the fuel `%s` -/\ndef %s (W : World Context) %s : M %s :=\n  %s W (%s) %s\n", doc, h, fn.key,
+			fn.wrapper = fmt.Sprintf("/-- %s with the fuel `%s` -/\ndef %s "+g.worldB()+" %s : M %s :=\n  %s W (%s) %s\n", doc, h, fn.key,
 				strings.Join(ps, " "), resT, fn.defName(), h, strings.Join(pnames, " "))
 		}
 	} else {
@@ -203,7 +207,7 @@ func (g *pcGen) translate(fn *pcFn) {
 		for i := range pnames {
 			ps = append(ps, "("+pnames[i]+" : "+ptypes[i]+")")
 		}
-		def = fmt.Sprintf("/-- %s -/\ndef %s (W : World Context) %s : M %s := do\n%s\n", doc, fn.key, strings.Join(ps, " "), resT, strings.Join(lines, "\n"))
+		def = fmt.Sprintf("/-- %s -/\ndef %s "+g.worldB()+" %s : M %s := do\n%s\n", doc, fn.key, strings.Join(ps, " "), resT, strings.Join(lines, "\n"))
 		def = strings.Replace(def, ")  :", ") :", 1)
 	}
 	fn.aux = *c.aux
@@ -245,18 +249,28 @@ func pcReturnedLit(fd *ast.FuncDecl) (*ast.FuncLit, []ast.Stmt) {
 	return lit, fd.Body.List[:n-1]
 }
 
-func writeCoreFacts(path string) error {
-	g := &pcGen{byObj: map[*types.Func]*pcFn{}, sdone: map[string]bool{}}
+func writeCoreFacts(path string) error { return pcWrite(path, nil) }
+
+func pcWrite(path string, tree *ptMode) error {
+	g := &pcGen{byObj: map[*types.Func]*pcFn{}, sdone: map[string]bool{}, tree: tree}
 	l := &concLoader{fset: fset, module: readModulePath(repo), root: repo, pkgs: map[string]*concPkg{}, loading: map[string]bool{}}
 	l.std = importer.ForCompiler(fset, "source", nil)
 	var bad []string
-	for _, t := range coreTargets {
+	targets := coreTargets
+	if tree != nil {
+		targets = treeTargets
+		bad = append(bad, tree.init(g, l)...)
+	}
+	for _, t := range targets {
 		key := t.name
 		if t.recv != "" {
 			key = t.recv + "_" + t.name
 		}
-		if t.closure {
+		if t.closure && tree == nil {
 			key += "_parse"
+		}
+		if t.closure && tree != nil {
+			key += "_func"
 		}
 		p, err := l.load(l.module + "/" + t.pkg)
 		if err != nil || p.tpkg == nil {
@@ -309,7 +323,9 @@ func writeCoreFacts(path string) error {
 	}
 	// the context and its cache come first (the monad is over the context)
 	ctxOK := false
-	if p, err := l.load(l.module + "/parsley"); err == nil && p.tpkg != nil {
+	if tree != nil {
+		ctxOK = tree.cellStruct(g, l)
+	} else if p, err := l.load(l.module + "/parsley"); err == nil && p.tpkg != nil {
 		if o := p.tpkg.Scope().Lookup("Context"); o != nil {
 			if n, ok := o.Type().(*types.Named); ok {
 				if s, ok := n.Underlying().(*types.Struct); ok {
@@ -375,6 +391,14 @@ func writeCoreFacts(path string) error {
 				if cal := g.byObj[tf]; cal != nil && cal.lit == nil && !seen[cal] {
 					seen[cal] = true
 					fn.calls = append(fn.calls, cal)
+				}
+			}
+			if tree != nil {
+				for _, cal := range tree.dynamicCallees(g, fn, call) {
+					if !seen[cal] {
+						seen[cal] = true
+						fn.calls = append(fn.calls, cal)
+					}
 				}
 			}
 			return true
@@ -457,6 +481,9 @@ func writeCoreFacts(path string) error {
 	} else {
 		for _, fn := range g.fns {
 			fn.err = "parsley.Context is outside the subset"
+			if tree != nil {
+				fn.err = "ast.NonTerminalNode is outside the subset"
+			}
 		}
 	}
 	// emission: callees first, a cycle as one unit, a failed callee fails its callers, no name twice
@@ -556,6 +583,9 @@ func writeCoreFacts(path string) error {
 		if len(bad) < 40 {
 			bad = append(bad, "type check: "+e)
 		}
+	}
+	if tree != nil {
+		return tree.write(path, g, ctxOK, out, names, bad)
 	}
 	var sb strings.Builder
 	sb.WriteString("/- GENERATED by harness/cmd/factgen (-out-core): the parser core TRANSLATED statement by statement into Lean definitions\n   (monad, value-level data types and the world parameter: Generated/CorePrelude.lean), from the repository's current\n   source on every run.  Do not edit. -/\nimport ParsleyVerif.Generated.CorePrelude\nset_option linter.unusedVariables false\nnamespace PV.FactsCore\nopen PV.CorePrelude\n\n")
